@@ -757,7 +757,10 @@ class BaseWorkflow(object, metaclass=abc.ABCMeta):
                 elif dependency == BaseTaskDependency.SS:
                     pass
                 elif dependency == BaseTaskDependency.SF:
-                    if input_task.state == BaseTaskState.WORKING:
+                    if (
+                        input_task.state == BaseTaskState.WORKING
+                        or input_task.state == BaseTaskState.FINISHED
+                    ):
                         finished = True
                     else:
                         finished = False
